@@ -26,15 +26,22 @@ func Abs(path string) (string, error) {
 	return orig.Join(wd, path), nil
 }
 
-// EvalSymlinks is the identity on the virtual disk (no symbolic links).
+// EvalSymlinks resolves symbolic links of the virtual disk.
 func EvalSymlinks(path string) (string, error) {
 	if !kern.Active() {
 		return orig.EvalSymlinks(path)
 	}
-	if _, err := simos.Lstat(path); err != nil {
-		return "", err
+	rp, st := simos.VEvalSymlinks(simos.VAbs(path))
+	if st != 0 {
+		return "", &fs.PathError{Op: "lstat", Path: path, Err: syscall.Errno(st)}
 	}
-	return orig.Clean(path), nil
+	if !orig.IsAbs(path) {
+		// like the real one, a relative path stays relative when no link was met
+		if rp == simos.VAbs(path) {
+			return orig.Clean(path), nil
+		}
+	}
+	return rp, nil
 }
 
 // Walk walks the virtual file tree rooted at root in lexical order, like the real one.
